@@ -715,7 +715,10 @@ Definition solver_setup (c : solvercfg) (st : pstate) : setup :=
        match objs with
        | [] => []
        | [o] => match cf_optimizer c with OptOptimize => [(o_dir o, o_target o)] | OptIncremental => [] end
-       | _ => if equiv then [] else map (fun o => (o_dir o, o_target o)) objs
+       | _ => if equiv then (match cf_optimizer c with
+                             | OptOptimize => [(last_dir objs, TV VEquivInd)]
+                             | OptIncremental => [] end)
+              else map (fun o => (o_dir o, o_target o)) objs
        end;
      su_objective :=
        match objs with
